@@ -1,6 +1,7 @@
 package main
 
 import (
+	"go/types"
 	"golang.org/x/tools/go/ssa"
 )
 
@@ -12,10 +13,26 @@ import (
 
 var inlineAware bool
 
-func withInline(f func()) {
+// inlineRoots are the functions a rule is about: they are never treated as helpers of their own
+// callers (hit is called from one place, but a rule on hit wants hit's returns to be returns).
+var inlineRoots = map[*ssa.Function]bool{}
+
+func withInline(f func(), roots ...*ssa.Function) {
 	old := inlineAware
 	inlineAware = true
-	defer func() { inlineAware = old }()
+	var added []*ssa.Function
+	for _, r := range roots {
+		if r != nil && !inlineRoots[r] {
+			inlineRoots[r] = true
+			added = append(added, r)
+		}
+	}
+	defer func() {
+		inlineAware = old
+		for _, r := range added {
+			delete(inlineRoots, r)
+		}
+	}()
 	f()
 }
 
@@ -54,7 +71,7 @@ func buildSiteIndex(p *Program) {
 // singleSite returns the one call of f when f is an unexported, named, same-repository function
 // that is called (plainly, not with go/defer) from exactly one place and never used as a value.
 func singleSite(p *Program, f *ssa.Function) *ssa.Call {
-	if f == nil || f.Parent() != nil || f.Synthetic != "" || f.Pkg == nil || !p.isRepoPkg(f.Pkg.Pkg.Path()) {
+	if f == nil || f.Parent() != nil || f.Synthetic != "" || f.Pkg == nil || !p.isRepoPkg(f.Pkg.Pkg.Path()) || inlineRoots[f] {
 		return nil
 	}
 	if obj := f.Object(); obj == nil || obj.Exported() {
@@ -163,4 +180,87 @@ func refsI(v ssa.Value) []ssa.Instruction {
 		}
 	}
 	return out
+}
+
+// helperResult: when v is result k of a call of a single-site helper all of whose returns yield the
+// same value in position k, that value (what the expression would be had the helper been inlined).
+func helperResult(v ssa.Value) ssa.Value {
+	for d := 0; d < 4; d++ {
+		if !inlineAware || curProgram == nil {
+			return v
+		}
+		var call *ssa.Call
+		idx := 0
+		switch x := v.(type) {
+		case *ssa.Extract:
+			call, _ = x.Tuple.(*ssa.Call)
+			idx = x.Index
+		case *ssa.Call:
+			call = x
+		}
+		if call == nil {
+			return v
+		}
+		h := call.Call.StaticCallee()
+		if h == nil || singleSite(curProgram, h) != call {
+			return v
+		}
+		var res ssa.Value
+		same := true
+		eachInstr(h, func(i ssa.Instruction) {
+			if r, ok := i.(*ssa.Return); ok && idx < len(r.Results) {
+				if res != nil && res != r.Results[idx] {
+					same = false
+				}
+				res = r.Results[idx]
+			}
+		})
+		if !same || res == nil {
+			return v
+		}
+		v = res
+	}
+	return v
+}
+
+// errNotNilIfI: the If testing the error of call; when call sits in a single-site helper that hands
+// the error back untested, the test its caller applies to the helper's error result.
+func errNotNilIfI(call *ssa.Call) *ssa.If {
+	if ifi := errNotNilIf(call, call); ifi != nil {
+		return ifi
+	}
+	if !inlineAware || curProgram == nil {
+		return nil
+	}
+	cs := singleSite(curProgram, call.Parent())
+	if cs == nil {
+		return nil
+	}
+	errT := types.Universe.Lookup("error").Type()
+	var ev ssa.Value
+	if types.Identical(call.Type(), errT) {
+		ev = call
+	}
+	for _, r := range refs(call) {
+		if ex, ok := r.(*ssa.Extract); ok && types.Identical(ex.Type(), errT) {
+			ev = ex
+		}
+	}
+	if ev == nil {
+		return nil
+	}
+	returned := false
+	eachInstr(call.Parent(), func(i ssa.Instruction) {
+		if r, ok := i.(*ssa.Return); ok {
+			for _, res := range r.Results {
+				if types.Identical(res.Type(), errT) && flowsFrom(res, func(x ssa.Value) bool { return x == ev }) {
+					returned = true
+				}
+			}
+		}
+	})
+	if !returned {
+		return nil
+	}
+	return errNotNilIfI(cs)
 }
